@@ -27,7 +27,18 @@ DECIDING_COUNTERS = ["c20_results", "c20_relations_checked", "measurement_querie
 MIN_NONTRIVIAL = {"quick": 100, "thorough": 1500}
 JOBS = {"quick": 8, "thorough": 16}
 
-SHAPES = ["full", "full", "single", "uniformK", "allK1", "one-bin-band"]
+SHAPES = ["full", "full", "single", "uniformK", "allK1", "one-bin-band", "two-bin-band",
+          "three-bin-band"]
+# the per-bin quantities a result documents (auto, cross, single-bin): the export may contain
+# these and nothing else, however many bins the result has
+KNOWN_COLUMNS = {
+    "D", "ENBW", "G", "Gxx", "Gxx_dev", "Gxx_emp_dev", "Gxx_error", "Gxy", "Gyy", "Gyy_dev",
+    "Gyy_error", "K", "L", "M2", "O", "S12", "S2", "XX", "XX_mean", "XY", "XY_M2", "XY_emp_dev",
+    "XY_emp_var", "YY", "YY_mean", "asd", "b", "compute_t", "m", "i", "navg", "ps", "psd", "r", "f",
+    "Gxy_dev", "Gxy_emp_dev", "Gxy_error", "Gyx", "GyyCx", "GyyRx", "GyySx", "Hxy",
+    "Hxy_deg_error", "Hxy_dev", "Hxy_mag_error", "Hxy_rad_error", "Hyx", "ccoh", "cf", "cf_db",
+    "cf_deg", "cf_deg_unwrapped", "cf_rad", "cf_rad_unwrapped", "coh", "coh_dev", "coh_error", "cs",
+    "csd", "tf"}
 
 
 def _base_shards(tier, seed):
@@ -70,17 +81,18 @@ def make_result(seedt):
         kw.update(olap=0.0, Kdes=1, Lmin=int(N // rng.choice([2, 3, 4])), Jdes=20)
     elif shape == "allK1":
         kw.update(olap=float(rng.choice([0.0, 0.5])), Lmin=N, Jdes=15, Kdes=1)
-    elif shape == "one-bin-band":
+    elif shape in ("one-bin-band", "two-bin-band", "three-bin-band"):
         kw.update(Jdes=20, Kdes=5, olap=0.5)
     desc = {"kind": "result", "seed": list(seedt), "shape": shape, "cross": cross, "N": N,
             "order": kw["order"], "sched": kw["scheduler"], "backend": kw["backend"]}
 
     def factory():
         kw2 = dict(kw)
-        if shape == "one-bin-band":
+        if shape in ("one-bin-band", "two-bin-band", "three-bin-band"):
             f = SpectrumAnalyzer(data, fs, **kw).plan()["f"]
             j = len(f) // 2
-            kw2["band"] = (float(f[j]), float(f[j]))
+            extra_bins = {"one-bin-band": 0, "two-bin-band": 1, "three-bin-band": 2}[shape]
+            kw2["band"] = (float(f[j]), float(f[min(j + extra_bins, len(f) - 1)]))
         an = SpectrumAnalyzer(data, fs, **kw2)
         if single is not None:
             return an.compute_single_bin(single[0], **single[1])
@@ -261,6 +273,11 @@ def check_dataframe(res, rec, what=""):
     cols = set(df.columns)
     missing = expected - cols
     extra = cols - expected - {"D", "compute_t"}  # timings are per-bin data too
+    undocumented = cols - KNOWN_COLUMNS
+    if undocumented:
+        rec.violation("dataframe-undocumented-column",
+                      f"{what}DataFrame (nf={n}) has column(s) {sorted(undocumented)} that are not "
+                      f"documented per-bin quantities of a result")
     if missing:
         rec.violation("dataframe-missing-column", f"{what}per-bin attribute(s) {sorted(missing)} "
                                                   f"missing from the DataFrame")
